@@ -154,6 +154,15 @@ var c03Fixed = []string{
 	// a fire-and-forget message between requests: its ID is its own; an error about it goes to no caller
 	"new:0 start pf:63:0:1:0 call:1:2:1001 w:1 nw:2:2:1002 w:2 r:2 ps:100:@2:5 ps:12:@1:6 r:1 close pc rc",
 	"new:0 start pf:63:0:1:0 nw:1:2:1001 w:1 r:1 call:2:2:1002 w:2 ps:12:@1:5 ps:12:@2:6 r:2 nw:3:3:1003 w:3 r:3 call:4:2:1004 w:4 ps:12:@3:7 ps:12:@4:8 r:4 close pc rc",
+	// the write of a request fails part-way (the peer vanishes inside the outbound frame) while its caller, and an earlier
+	// one, are waiting: nobody has answered, so neither may be handed a reply
+	"new:0 start pf:63:0:1:0 pcutout:0 call:1:2:1001 rc r:1",
+	"new:0 start pf:63:0:1:0 pcutout:4 call:1:2:1001 rc r:1",
+	"new:0 start pf:63:0:1:0 pcutout:10 call:1:2:1001 rc r:1",
+	"new:0 start pf:63:0:1:0 pcutout:14 call:1:2:1001 rc r:1",
+	"new:0 start pf:63:0:1:0 call:1:2:1001 w:1 pcutout:3 call:2:2:1002 rc r:1 r:2",
+	"new:0 start pf:63:0:1:0 call:1:2:1001 w:1 pcutout:12 call:2:3:1002 rc r:2 r:1",
+	"new:1 start pf:63:0:1:0 w:1 ps:56:0:18 w:2 ps:57:1:0 call:1:2:1001 w:3 pcutout:10 call:2:2:1002 rc r:1 r:2",
 }
 
 func TestVerifC03(t *testing.T) {
